@@ -30,9 +30,10 @@ Proof.
     destruct (canon age) eqn:E; simpl; auto; right; split; eauto.
 Qed.
 
-Lemma sem_stale c ng st f o f' r a : (exists p, o = OStat p) -> sem c ng st f o = (f', r) -> (r = RIsDir a \/ r = RIsFile a) -> st = a.
+Lemma sem_stale c ng st fl f o f' r a : (exists p, o = OStat p) -> sem c ng st fl f o = (f', r) -> (r = RIsDir a \/ r = RIsFile a) -> st = a.
 Proof.
   unfold sem. intros [p ->] H Hr.
+  destruct fl; simpl in H; try (inversion H; subst; destruct Hr; discriminate). unfold sem0 in H.
   destruct p; destruct f as [d|]; simpl in H;
     repeat match type of H with context [if ?b then _ else _] => destruct b eqn:? end;
     inversion H; subst; destruct Hr as [Hr|Hr]; try discriminate; inversion Hr; auto.
@@ -64,9 +65,9 @@ Variable judge : state -> bool.
 (* the staleness oracle never judges stale a directory whose creator is engaged with it and alive *)
 Hypothesis judge_sound : forall s, judge s = true -> live_owner (fs s) (cs s) = false.
 
-Lemma Inv2_mstep s c st s' : Inv2 s -> allowedb judge s (IStep c None st) = true -> mstep s c st s' -> Inv2 s'.
+Lemma Inv2_mstep s c st fl s' : Inv2 s -> allowedb judge s (IStep c None st fl) = true -> mstep s c st fl s' -> Inv2 s'.
 Proof.
-  intros (HI & Hb & HW) Hall Hm. pose proof (Inv_mstep F Hrel s c st s' HI Hm) as HI'.
+  intros (HI & Hb & HW) Hall Hm. pose proof (Inv_mstep F Hrel s c st fl s' HI Hm) as HI'.
   destruct HI as (Hex & Hhe & Hps). specialize (Hex Hb).
   apply mstep_x2 in Hm as (x & a & o & k & r & x2 & Hx & Hcur & Hsem & Hcs & Hbad & Hal & Hov & Hgh & Heng & Hho & Hcu).
   destruct (Hps c x a (Do o k) Hx Hcur) as [Hsafe _]. apply Safe_Do_inv in Hsafe as [Hguard _].
@@ -78,7 +79,7 @@ Proof.
     rewrite Hbad, Hb. simpl. destruct o as [|[]| | | | | | |]; try reflexivity. destruct r; try reflexivity. simpl.
     apply (HW c x Hx). rewrite Hwo by discriminate. apply Hguard. reflexivity.
   - intros c' y' Hy' Hwin. rewrite Hcs in Hy'.
-    destruct (sem_cases c (ngen s) st (fs s) o (fs s') r Hsem) as [(-> & -> & Hf & Hf')|[(-> & -> & [d Hf] & Hf')|(Hnc & Hnr & Hsd)]].
+    destruct (sem_cases c (ngen s) st fl (fs s) o (fs s') r Hsem) as [(-> & -> & Hf & Hf')|[(-> & -> & [d Hf] & Hf')|(Hnc & Hnr & Hsd)]].
     + (* Mkdir succeeded: no other window is open, and the own window closes *)
       exfalso. unfold at_mkdir in Hmk. rewrite Hcur, Hf in Hmk. simpl in Hmk.
       apply nth_set_nth in Hy' as [[<- ->]|[Hne Hy']].
@@ -91,14 +92,14 @@ Proof.
         { unfold window_open in Hwin. destruct (cur x2); [|discriminate]. apply andb_true_iff in Hwin. tauto. }
         rewrite Hgh in Hw2. apply win_upd in Hw2 as [Hno [Hw|[Hp (a0 & Hca & Hr)]]].
         - apply (HW c x Hx). rewrite Hwo by exact Hno. exact Hw.
-        - apply judge_sound. rewrite (sem_stale c (ngen s) st (fs s) o (fs s') r a0 Hp Hsem Hr), Hca in Hjudge. exact Hjudge. }
+        - apply judge_sound. rewrite (sem_stale c (ngen s) st fl (fs s) o (fs s') r a0 Hp Hsem Hr), Hca in Hjudge. exact Hjudge. }
       destruct (live_owner (fs s') (cs s')) eqn:E; [|reflexivity]. rewrite <- Hbefore. symmetry.
       eapply live_owner_le; [exact Hsd| |exact E].
       intros i z g Hz Haz Hez. rewrite Hcs in Hz. apply nth_set_nth in Hz as [[<- ->]|[Hne Hz]]; [|eauto].
       exists x. rewrite Hal in Haz. rewrite Heng, (eng_not_created o r _ _ _ Hnc) in Hez. auto.
 Qed.
 
-Lemma Inv2_other s it s' ob : Inv2 s -> exec s it = Some (s', ob) -> (forall c st, it <> IStep c None st) -> Inv2 s'.
+Lemma Inv2_other s it s' ob : Inv2 s -> exec s it = Some (s', ob) -> (forall c st fl, it <> IStep c None st fl) -> Inv2 s'.
 Proof.
   intros (HI & Hb & HW) He Hnot. pose proof (Inv_other F Hrel s it s' ob HI He Hnot) as HI'.
   destruct HI as (Hex & Hhe & Hps). specialize (Hex Hb).
@@ -138,7 +139,7 @@ Proof.
   destruct (allowedb judge s it) eqn:Hall; [|discriminate].
   destruct (exec s it) as [[s1 o]|] eqn:E; [|discriminate].
   apply (IH s1 s'); [|exact H].
-  destruct it as [c a|c [k|] st|c|c].
+  destruct it as [c a|c [k|] st fl|c|c].
   - eapply Inv2_other; eauto. discriminate.
   - eapply Inv2_other; eauto. discriminate.
   - eapply Inv2_mstep; eauto. eapply (exec_main_inv F); eauto.
